@@ -91,7 +91,7 @@ func c04Forms(v *big.Int) []string {
 func c04Run(t *testing.T, sub, keyName string, maxK int, nonrev bool, qb, tb time.Duration) {
 	r := vkit.Start(t, "C04", sub, qb, tb)
 	defer r.Finish()
-	r.Rule = "k=1..K attributes, values = rotation of {tag,0,1,2^Lm-1,2^Lm,2^(Lm+200)+c} over positions, every subset of {1..k} disclosed (index list ascending, descending or rotated by one, by rotation number), both session kinds, via CreateDisclosureProof and via builder+BuildProofList; non-trivial = distinct (k,rotation,subset,session,path); oracle: verifies; key sets exact and values true; timestamp contribution exact; no hidden value (>=64 bits) nor its SHA-256 exponent appears as a JSON leaf or substring"
+	r.Rule = "k=1..K attributes and k = every base of the key used, values = rotation of {tag,0,1,2^Lm-1,2^Lm,2^(Lm+200)+c} over positions, every subset of {1..k} disclosed (index list ascending, descending or rotated by one, by rotation number), both session kinds, via CreateDisclosureProof and via builder+BuildProofList; non-trivial = distinct (k,rotation,subset,session,path); oracle: verifies; key sets exact and values true; timestamp contribution exact; no hidden value (>=64 bits) nor its SHA-256 exponent appears as a JSON leaf or substring"
 	k := vfK(keyName)
 	pk := k.Pk
 	vfInstallEnv(t, "C04/"+sub, r.Seed)
@@ -99,8 +99,25 @@ func c04Run(t *testing.T, sub, keyName string, maxK int, nonrev bool, qb, tb tim
 	al := vfValueAlphabet(pk.Params.Lm)
 	r.Bounds["max_k"] = maxK
 	r.Bounds["nonrev"] = nonrev
+	// attribute counts 1..K and the count that uses every base of the key (its last base included)
+	var kks []int
 	for kk := 1; kk <= maxK; kk++ {
-		for rot := 0; rot < 6; rot++ {
+		kks = append(kks, kk)
+	}
+	full := len(pk.R) - 1
+	if nonrev {
+		full--
+	}
+	if full > maxK {
+		kks = append(kks, full)
+	}
+	r.Bounds["attribute_counts"] = kks
+	for _, kk := range kks {
+		rots := 6
+		if kk > maxK {
+			rots = 2
+		}
+		for rot := 0; rot < rots; rot++ {
 			vals := make([]*big.Int, kk)
 			for i := range vals {
 				switch (i + rot) % 6 {
